@@ -15,6 +15,7 @@ digits (beyond that CPython's `str(int)` raises inside networkx's writer and `in
 reader; the model's `natStr` is the unbounded decimal printer).
 -/
 import Lemmas.GmlRead
+import Lemmas.GmlContract
 namespace Cnfgen.C14
 open Cnfgen GraphLex GraphFmt Gml
 
@@ -166,5 +167,75 @@ theorem gml_regression_nonDict :
     readGml false .simple "graph 5".toList = .err .valueError ∧
     readGml false .simple "graph [ node [ id 1 ] edge 3 ]".toList = .err .valueError :=
   ⟨by rfl, by rfl, by rfl, by rfl, by rfl, by rfl, by rfl⟩
+
+/-! ### an accepted text yields a graph consistent with the text
+
+The tokenizer and the parser are functions (`tokenize`, `parseToks`: the regular expressions and the
+recursive descent of networkx, compared with it on every run); what is PROVED is what every accepted
+text guarantees from there on: the parsed networkx graph is well formed, and the cnfgen object has one
+vertex per `node` of the text, numbered in the order `normalize_networkx_labels` gives (`Parsed.rank`),
+and exactly the edges of the text between the renumbered ends. -/
+
+/-- whatever `parse_gml_lines` accepts: distinct ids, edges between declared nodes, no edge twice -/
+theorem gml_parsed_wellFormed (u : Bool) (text : Str) (P : Parsed) (h : parseGml u text = .ok P) : P.WF :=
+  parseGml_wf h
+
+example : ∃ P, parseGml false "graph [ node [ id 7 ] node [ id 3 ] edge [ source 3 target 7 ] ]".toList = .ok P ∧
+    P.labels = [.int 7, .int 3] ∧ P.tedges = [(1, 0)] := ⟨_, rfl, rfl, rfl⟩
+
+/-- type `simple` -/
+theorem gml_reader_consistent_simple (u : Bool) (text : Str) (G : AnyG) (nm : Field)
+    (h : readGml u .simple text = .ok (G, nm)) :
+    ∃ P g, parseGml u text = .ok P ∧ P.WF ∧ G = .simple g ∧ SimpleG.Inv g ∧ g.n = P.labels.length ∧
+      ∀ x y, (x, y) ∈ g.edgeset ↔ ∃ i j, ((i, j) ∈ P.tedges ∨ (j, i) ∈ P.tedges) ∧ x = P.rank i ∧ y = P.rank j := by
+  obtain ⟨P, hp, hn, _, _⟩ := readGml_ok_inv h
+  have hW := parseGml_wf hp
+  obtain ⟨g, h1, h2, h3, h4⟩ := normalize_simple_spec hW hn
+  exact ⟨P, g, hp, hW, h1, h2, h3, h4⟩
+
+example : ∃ G nm, readGml false .simple "graph [ node [ id 7 ] node [ id 3 ] edge [ source 3 target 7 ] ]".toList = .ok (G, nm) :=
+  ⟨_, _, rfl⟩
+
+/-- types `digraph` and `dag`: only a text that says `directed 1` (a true value) is accepted; the edges
+keep their orientation; a text read as `dag` is accepted only if EVERY edge goes from a lower to a
+higher vertex (in the numbering of the result) -/
+theorem gml_reader_consistent_directed (u : Bool) (ty : GType) (hty : ty = .digraph ∨ ty = .dag) (text : Str)
+    (G : AnyG) (nm : Field) (h : readGml u ty text = .ok (G, nm)) :
+    ∃ P g, parseGml u text = .ok P ∧ P.WF ∧ P.directed = true ∧ G = .di g ∧ DiG.Inv g ∧ g.n = P.labels.length ∧
+      (∀ x y, (x, y) ∈ g.edgeset ↔ ∃ i j, (i, j) ∈ P.tedges ∧ x = P.rank i ∧ y = P.rank j) ∧
+      (ty = .dag → g.stillDag = true ∧ (∀ e ∈ g.edges, e.1 < e.2) ∧ ∀ e ∈ P.tedges, P.rank e.1 < P.rank e.2) := by
+  obtain ⟨P, hp, hn, _, hdag⟩ := readGml_ok_inv h
+  have hW := parseGml_wf hp
+  obtain ⟨hd, g, h1, h2, h3, h4⟩ := normalize_di_spec ty hty hW hn
+  refine ⟨P, g, hp, hW, hd, h1, h2, h3, h4, ?_⟩
+  intro hdg
+  have hs := hdag hdg g h1
+  have hall := h2.dag.1 hs
+  refine ⟨hs, fun e he => hall e (h2.mem_edges.1 he), ?_⟩
+  intro e he
+  exact hall (P.rank e.1, P.rank e.2) ((h4 _ _).2 ⟨e.1, e.2, he, rfl, rfl⟩)
+
+/-- T-C14.3 for gml, the short form: a file declared acyclic is accepted only with increasing edges -/
+theorem gml_dag_only_increasing (u : Bool) (text : Str) (G : AnyG) (nm : Field)
+    (h : readGml u .dag text = .ok (G, nm)) :
+    ∃ g, G = .di g ∧ g.stillDag = true ∧ ∀ e ∈ g.edges, e.1 < e.2 := by
+  obtain ⟨_, g, _, _, _, h1, _, _, _, h2⟩ := gml_reader_consistent_directed u .dag (Or.inr rfl) text G nm h
+  exact ⟨g, h1, (h2 rfl).1, (h2 rfl).2.1⟩
+
+example : readGml false .dag "graph [ directed 1 node [ id 7 ] node [ id 3 ] edge [ source 7 target 3 ] ]".toList =
+    .err .valueError := by rfl
+example : ∃ G nm, readGml false .dag "graph [ directed 1 node [ id 7 ] node [ id 3 ] edge [ source 3 target 7 ] ]".toList =
+    .ok (G, nm) := ⟨_, _, rfl⟩
+example : readGml false .digraph "graph [ node [ id 7 ] ]".toList = .err .valueError := by rfl
+
+/-- the numbering: when the ids of the text are (distinct) integers, the vertex of a node is one more
+than the number of nodes with a smaller id, i.e. the nodes are numbered `1..n` in increasing order of
+their ids (`sorted()`); ids that mix integers and strings keep the order of the file (`ranks`) -/
+theorem gml_numbering_sorted_ids (zs : List Int) (hn : zs.Nodup) :
+    ranks (zs.map Label.int) = zs.map (fun z => zs.countP (fun y => decide (y < z)) + 1) :=
+  ranks_int zs hn
+
+example : ranks [.int 7, .int (-3), .int 10] = [2, 1, 3] := by decide
+example : ranks [.int 7, .str ['a'], .int 1] = [1, 2, 3] := by decide
 
 end Cnfgen.C14
